@@ -250,10 +250,10 @@ theorem C06_facilities_covered_cpp (pcfg : Namespace.Cfg) (o : Opts) (t : Top) (
       List.mem_append.mpr (Or.inl ((hmem _).mpr (Or.inr (mem_cppGetIncludes_alloc hne))))
     exact covered_of_mem this (provides_alloc hne hfa)
   -- the headers of a union
-  have cov_union : ∀ c ∈ t.parts, c.isUnion = true → ∀ n g, angle n = g.1 → stdProvides g.1 f = true →
+  have cov_union : ∀ c ∈ t.parts, c.isUnion = true → ∀ n hdr : Str, angle n = hdr → stdProvides hdr f = true →
       n ∈ (if hasVariant o then [lit "type_traits", lit "variant"] else [lit "memory", lit "new", lit "type_traits", lit "utility"]) →
       covered .cpp o (l ++ cppPortBlock t.fixedPort l) f = true := by
-    intro c hc hu n g hg hp hn
+    intro c hc hu n hdr hg hp hn
     have huu := direct_usesUnion (part_isUnion_definesUnion hc hu)
     have hn' : n ∈ cppStdNames o (direct t) := by
       simp only [cppStdNames, List.mem_append]
@@ -271,43 +271,21 @@ theorem C06_facilities_covered_cpp (pcfg : Namespace.Cfg) (o : Opts) (t : Top) (
   simp only [facilities, facMust, facMay, List.mem_append, List.mem_flatMap] at hf
   rcases hf with (⟨c, hc, hfc⟩ | hf) | (⟨c, hc, hfc⟩ | hf)
   · -- certainly used by the definition of part `c`
-    simp only [xCompFac, List.mem_append, List.mem_flatMap, List.mem_cons, List.mem_singleton, List.mem_filter] at hfc
-    rcases hfc with ((((hfc | hfc) | hfc) | hfc) | hfc)
-    · rcases hfc with hfc | hfc | hfc
-      · exact cov_limits f (Or.inr hfc)
-      · exact cov_limits f (Or.inl hfc)
-      · simp at hfc
+    rcases mem_xCompFac hfc with hk | hk | ⟨hp, hk⟩ | ⟨ty, hty, hfty⟩ | ⟨hu, hv, hk⟩ | ⟨hu, hv, hk⟩ | ⟨ha, hk⟩
+    · exact cov_limits f (Or.inr hk)
+    · exact cov_limits f (Or.inl hk)
     · -- the fixed port-ID
-      split at hfc
-      · rename_i hp
-        simp at hfc; subst hfc
-        rw [hp]
-        exact covered_of_mem (cstdint_of_fixedPort l) (provides_of_std std_cstdint)
-      · simp at hfc
-    · rcases hfc with ⟨ty, ⟨hty, _⟩, hfty⟩ | ⟨ty, hty, hfty⟩
-      · exact cov_decl ty (part_fields_dataTypes hc (Or.inl hty)) hfty
-      · exact cov_decl ty (part_fields_dataTypes hc (Or.inr hty)) hfty
-    · -- a union
-      split at hfc
-      · rename_i hu
-        split at hfc
-        · rename_i hv
-          simp at hfc
-          rcases hfc with hfc | hfc <;> subst hfc
-          · exact cov_union c hc hu (lit "variant") (lit "<variant>", ()) angle_variant std_variant (by simp [hv])
-          · exact cov_union c hc hu (lit "type_traits") (lit "<type_traits>", ()) angle_type_traits std_type_traits (by simp [hv])
-        · rename_i hv
-          simp at hfc
-          rcases hfc with hfc | hfc | hfc <;> subst hfc
-          · exact cov_union c hc hu (lit "type_traits") (lit "<type_traits>", ()) angle_type_traits std_type_traits (by simp [hv])
-          · exact cov_union c hc hu (lit "utility") (lit "<utility>", ()) angle_utility std_utility (by simp [hv])
-          · exact cov_union c hc hu (lit "new") (lit "<new>", ()) angle_new std_new (by simp [hv])
-      · simp at hfc
-    · split at hfc
-      · rename_i ha
-        simp at hfc
-        exact cov_alloc ha (Or.inl hfc)
-      · simp at hfc
+      subst hk; rw [hp]
+      exact covered_of_mem (cstdint_of_fixedPort l) (provides_of_std std_cstdint)
+    · exact cov_decl ty (part_fields_dataTypes hc hty) hfty
+    · rcases hk with hk | hk <;> subst hk
+      · exact cov_union c hc hu (lit "variant") (lit "<variant>") angle_variant std_variant (by simp [hv])
+      · exact cov_union c hc hu (lit "type_traits") (lit "<type_traits>") angle_type_traits std_type_traits (by simp [hv])
+    · rcases hk with hk | hk | hk <;> subst hk
+      · exact cov_union c hc hu (lit "type_traits") (lit "<type_traits>") angle_type_traits std_type_traits (by simp [hv])
+      · exact cov_union c hc hu (lit "utility") (lit "<utility>") angle_utility std_utility (by simp [hv])
+      · exact cov_union c hc hu (lit "new") (lit "<new>") angle_new std_new (by simp [hv])
+    · exact cov_alloc ha (Or.inl hk)
   · -- `nunavut::support`
     by_cases ho : o.omitSer = true
     · simp [ho] at hf
@@ -315,19 +293,10 @@ theorem C06_facilities_covered_cpp (pcfg : Namespace.Cfg) (o : Opts) (t : Top) (
       simp [ho] at hf; subst hf
       exact cov_support ho support_cpp_self
   · -- possibly used by the definition of part `c`
-    simp only [xCompMay, List.mem_append] at hfc
-    rcases hfc with hfc | hfc
-    · split at hfc
-      · rename_i hu
-        simp only [Bool.and_eq_true, Bool.not_eq_true'] at hu
-        simp at hfc; subst hfc
-        exact cov_union c hc hu.1 (lit "memory") (lit "<memory>", ()) angle_memory std_memory (by simp [hu.2])
-      · simp at hfc
-    · split at hfc
-      · rename_i ha
-        simp at hfc
-        exact cov_alloc ha (Or.inr (hfc.elim Or.inl Or.inr))
-      · simp at hfc
+    rcases mem_xCompMay hfc with ⟨hu, hv, hk⟩ | ⟨ha, hk⟩
+    · subst hk
+      exact cov_union c hc hu (lit "memory") (lit "<memory>") angle_memory std_memory (by simp [hv])
+    · exact cov_alloc ha (Or.inr hk)
   · -- possibly used by the serialization functions
     by_cases ho : o.omitSer = true
     · simp [ho] at hf
@@ -404,29 +373,11 @@ theorem C06_include_guards_distinct (mac : Str → Str) (full₁ full₂ : Str) 
   have := NunavutVerif.Namespace.shortVer_inj h'
   exact ⟨hinj this.1, this.2.1, this.2.2⟩
 
-/-- Identifier characters: no bracket, no slash, no newline. -/
-def plainName (n : Str) : Prop := ∀ c ∈ n, c ≠ '{' ∧ c ≠ '}' ∧ c ≠ '/' ∧ c ≠ '\n'
-
-theorem depthAfter_plain (n : Str) (hn : plainName n) (rest : Str) (d : Nat) :
-    depthAfter (n ++ rest) d = depthAfter rest d := by
-  induction n with
-  | nil => rfl
-  | cons c cs ih =>
-    have hc := hn c (List.mem_cons_self ..)
-    have ih' := ih (fun x hx => hn x (List.mem_cons_of_mem _ hx))
-    simp only [List.cons_append]
-    rw [depthAfter.eq_def]
-    split
-    · simp at *
-    · rename_i h; simp at h; exact absurd h.1 hc.1
-    · rename_i h; simp at h; exact absurd h.1 hc.2.1
-    · rename_i h _ _; simp at h; obtain ⟨rfl, rfl⟩ := h; exact ih'
-
-/-- T3b: the text of `open_namespace` opens exactly one bracket per namespace component … -/
+/-- T3b: the text of `open_namespace` opens exactly one bracket per namespace component (names are identifiers:
+no bracket, slash or newline) … -/
 theorem C06_open_namespace_depth (names : List Str) (hn : ∀ n ∈ names, plainName n) (rest : Str) (d : Nat) :
     depthAfter (openNamespace names ++ rest) d = depthAfter rest (d + names.length) := by
-  have hkw : plainName (lit "namespace ") := by decide
-  have hnl : plainName nl → False := by intro h; exact (h '\n' (by simp [nl])).2.2.2 rfl
+  have hkw : plainName (lit "namespace ") := by unfold plainName; decide
   induction names generalizing d with
   | nil => simp [openNamespace]
   | cons n ns ih =>
@@ -436,19 +387,63 @@ theorem C06_open_namespace_depth (names : List Str) (hn : ∀ n ∈ names, plain
       intro tail
       simp only [List.append_assoc]
       rw [depthAfter_plain _ hkw, depthAfter_plain _ hn0]
-      simp [nl, depthAfter]
+      show depthAfter ('\n' :: '{' :: tail) d = _
+      rw [depthAfter_other _ _ _ (by decide) (by decide), depthAfter_open]
     cases ns with
     | nil =>
       simp only [openNamespace, List.length_singleton]
       exact step rest
     | cons m ms =>
       simp only [openNamespace, List.length_cons]
-      have := step (nl ++ openNamespace (m :: ms) ++ rest)
+      have := step (nl ++ (openNamespace (m :: ms) ++ rest))
       simp only [List.append_assoc] at this ⊢
       rw [this]
-      simp only [nl, List.cons_append, List.nil_append, depthAfter]
-      have := ihn (d + 1)
-      simp only [List.length_cons] at this
-      rw [this]; congr 1; omega
+      show depthAfter ('\n' :: (openNamespace (m :: ms) ++ rest)) (d + 1) = _
+      rw [depthAfter_other _ _ _ (by decide) (by decide), ihn (d + 1)]
+      simp only [List.length_cons]; congr 1; omega
+
+/-- … and the text of `close_namespace`, with its `// namespace x` comments removed, closes exactly as many: the pair
+is balanced around any body that is balanced itself. -/
+theorem C06_close_namespace_depth (names : List Str) (hn : ∀ n ∈ names, plainName n) (rest : Str) (d : Nat) :
+    depthAfter (stripLineComments (closeNamespace names ++ nl ++ rest)) (d + names.length) =
+      depthAfter (stripLineComments (nl ++ rest)) d := by
+  have key : ∀ (rs : List Str), (∀ n ∈ rs, plainName n) → ∀ d, rs ≠ [] →
+      depthAfter (stripLineComments (closeNamespaceRev rs ++ nl ++ rest)) (d + rs.length) =
+        depthAfter (stripLineComments (nl ++ rest)) d := by
+    intro rs
+    induction rs with
+    | nil => intro _ _ h; exact absurd rfl h
+    | cons n ns ih =>
+      intro hrs d _
+      have hn0 := hrs n (List.mem_cons_self ..)
+      have one : ∀ tail : Str, stripLineComments (['}'] ++ lit " // namespace " ++ n ++ nl ++ tail)
+          = '}' :: ' ' :: stripLineComments (nl ++ tail) := by
+        intro tail
+        show stripLineComments ('}' :: ' ' :: '/' :: '/' :: (lit " namespace " ++ n ++ nl ++ tail)) = _
+        rw [stripLineComments_other _ _ (by decide), stripLineComments_other _ _ (by decide), stripLineComments_comment]
+        simp only [List.append_assoc]
+        rw [skipLine_plain _ (by unfold plainName; decide), skipLine_plain _ hn0]
+        show _ :: _ :: stripLineComments.skipLine ('\n' :: tail) = _ :: _ :: stripLineComments ('\n' :: tail)
+        rw [skipLine_nl, stripLineComments_other _ _ (by decide)]
+      cases ns with
+      | nil =>
+        simp only [closeNamespaceRev, List.length_singleton]
+        rw [one rest, depthAfter_close, depthAfter_other _ _ _ (by decide) (by decide)]
+      | cons m ms =>
+        simp only [closeNamespaceRev, List.length_cons]
+        have h1 := one (closeNamespaceRev (m :: ms) ++ nl ++ rest)
+        simp only [List.append_assoc] at h1 ⊢
+        rw [h1]
+        have h2 := ih (fun x hx => hrs x (List.mem_cons_of_mem _ hx)) d (by simp)
+        simp only [List.length_cons, List.append_assoc] at h2
+        show depthAfter ('}' :: ' ' :: stripLineComments ('\n' :: (closeNamespaceRev (m :: ms) ++ (nl ++ rest)))) _ = _
+        rw [stripLineComments_other _ _ (by decide)]
+        rw [show d + (ms.length + 1 + 1) = (d + (ms.length + 1)) + 1 by omega, depthAfter_close]
+        rw [depthAfter_other _ _ _ (by decide) (by decide), depthAfter_other _ _ _ (by decide) (by decide), h2]
+  cases names with
+  | nil => simp [closeNamespace, closeNamespaceRev]
+  | cons n ns =>
+    have := key (n :: ns).reverse (fun x hx => hn x (List.mem_reverse.mp hx)) d (by simp)
+    simpa [closeNamespace] using this
 
 end NunavutVerif.Deps
